@@ -125,6 +125,8 @@ def rule_b(ctx):
                   "contained' and is the first effect; on the panic path the would-be action is dropped", floor=4)
     checker, target = checker_and_target(F)
     cs = [i for i in F.inst if i.local and i.body is not None and i.defp == checker]
+    if checker == target:
+        return _merged_checker(ctx, F, rid, cs)
     for m in cs:
         ctx.fn(m)
         fl = flow(m)
@@ -165,6 +167,67 @@ def rule_b(ctx):
                 okd = okd and not _needs_drop(F, m, 2)
         ctx.check(panics and okd, rid, "panic-drops-action", "unwinding out of the refusal drops the would-be action (its captures are released)", m.span,
                   "the action is leaked on the panic path")
+
+
+def _merged_checker(ctx, F, rid, cs):
+    """the assertion lives inside the registering function itself (possibly behind a `check` flag parameter): every effect must be
+    reachable only through the membership test's not-forbidden outcome or through an explicit flag-off edge"""
+    ins = [i.id for i in installers(F)]
+    for m in cs:
+        ctx.fn(m)
+        fl = flow(m)
+        cont = [bb for bb, t in m.calls() if (t.get("def") or "").endswith("::contains") and
+                any(mentions(e, lambda x: x[0] == "const" and (x[2] or "").startswith("signal_hook_registry::FORBIDDEN")) for e in fl.term_arg(bb, 0))]
+        if not cont:
+            raise AnchorLost("membership test on FORBIDDEN")
+        for cbb in cont:
+            a1 = [deep_strip(e) for e in fl.term_arg(cbb, 1)]
+            ctx.check(all(strip(e[1] if e[0] == "ref" else e) == ("param", 1) for e in a1), rid, "tests-signal-in-FORBIDDEN", "the check is FORBIDDEN.contains(&signal) on the "
+                      "function's own signal parameter", m.term(cbb)["sp"], [show(e) for e in a1])
+        effects = [(bb, t) for bb, t in m.calls() if t.get("f") is not None and
+                   (F.inst[t["f"]].name == "signal_hook_registry::half_lock::WriteGuard::<'_, %s>::store" % DATA_T or t["f"] in ins)]
+        if not effects:
+            raise AnchorLost("effects (publish / install) in the registering function")
+        # flag-off edges: switch on a bool parameter whose other edge leads to the membership test
+        off_edges = set(); flags = set()
+        for b in range(m.nblocks()):
+            t = m.term(b)
+            if t["k"] != "switch":
+                continue
+            ex = [deep_strip(e) for e in fl.term_operand(b, t["d"])]
+            if len(ex) == 1 and ex[0][0] == "param" and m.local_ty(ex[0][1]) == "bool":
+                for tg, lab in m.succ_labeled(b):
+                    leads = any(c == tg or c in cfg.reachable(m, tg, unwind=False) for c in cont)
+                    if not leads and lab == "sw:0":
+                        off_edges.add((b, tg, lab)); flags.add(ex[0][1])
+        # reachability from entry avoiding the membership test and the flag-off edges
+        seen = set(); st = [0]
+        while st:
+            x = st.pop()
+            if x in seen or x in cont:
+                continue
+            seen.add(x)
+            for tg, lab in m.succ_labeled(x):
+                if lab == "unw" or (x, tg, lab) in off_edges:
+                    continue
+                st.append(tg)
+        for bb, t in effects:
+            ctx.check(bb not in seen, rid, "effect-behind-check:%s@%s" % ((t.get("def") or "").split("::")[-1], keyname(m.name)),
+                      "the %s is reachable only through the forbidden-signal test (or an explicit check-off edge)" % (t.get("def") or "").split("::")[-1], t["sp"],
+                      {"path_without_check": cfg.path(m, 0, bb, avoid=set(cont), unwind=False),
+                       "why": "e.g. an already existing slot: a forbidden signal taken over once through the unchecked API is then accepted by every checked entry point"})
+        # who may switch the check off
+        for (cid, k, cb) in F.callers().get(m.id, []):
+            c = F.inst[cid]
+            if c.body is None or k != "call":
+                continue
+            for fp in flags:
+                v = [fold(e) for e in flow(c).term_arg(cb, fp - 1)]
+                name = c.defp.split("::")[-1]
+                if v == [1]:
+                    ctx.ok(rid, "flag-on@%s" % keyname(c.name), "%s asks for the check" % name, c.term(cb)["sp"])
+                else:
+                    ctx.check(v == [0] and "unchecked" in name, rid, "flag-off@%s" % keyname(c.name), "only a documented *_unchecked entry point switches the check off", c.term(cb)["sp"], v)
 
 
 def _needs_drop(F, m, local):
